@@ -12,6 +12,7 @@ import (
 	"context"
 	"fmt"
 	"io"
+	"math"
 	"math/rand/v2"
 	"net/http"
 	"strconv"
@@ -281,9 +282,13 @@ func (c *checker) blobScenario(i int, content []byte, path string) {
 			for o1 := int64(-1); o1 <= n+2; o1++ {
 				c.rangeRead(repo, content, o0, o1)
 			}
+			// any negative end means "to the end", not only -1
+			for _, o1 := range []int64{-2, -3, -n - 1, -1 << 62, math.MinInt64} {
+				c.rangeRead(repo, content, o0, o1)
+			}
 		}
 	} else {
-		bs := []int64{0, 1, n - 1, n, n + 1, -1}
+		bs := []int64{0, 1, n - 1, n, n + 1, -1, -2, -n, math.MinInt64, math.MaxInt64}
 		for k := 0; k < 6; k++ {
 			c.rangeRead(repo, content, bs[rng.IntN(len(bs))], bs[rng.IntN(len(bs))])
 		}
